@@ -31,7 +31,19 @@ NullFirst == {<<Ref("NonNullable", <<UnionT(<<Kw("null"), Str, Boo>>)>>), <<>>>>
               <<IdxT(TupleT(<<Boo, Str>>), Kw("number")), <<>>>>, <<IdxT(TupleT(<<Str, Boo, Num>>), LitN(0)), <<>>>>,
               <<IdxT(TupleT(<<Str, Boo, Num>>), LitN(2)), <<>>>>, <<IdxT(ArrT(UnionT(<<Boo, Str>>)), LitN(0)), <<>>>>,
               <<ArrT(UnionT(<<Boo, Str>>)), <<>>>>}
-Base == {<<a, <<>>>> : a \in Atoms} \cup MethodIdx \cup NullFirst
+(* names whose values this file says nothing about (imported, global outside the table), enums, accesses through parents *)
+Outside == {<<Ref("Foreign", <<>>), <<>>>>, <<Ref("Imp", <<>>), <<ImportT("Imp")>>>>, <<Ref("ReturnType", <<FnT>>), <<>>>>,
+            <<ArrT(Ref("Imp", <<>>)), <<ImportT("Imp")>>>>,
+            <<Ref("ES", <<>>), <<EnumDecl("ES", <<"str", "str">>)>>>>, <<Ref("EN", <<>>), <<EnumDecl("EN", <<"num">>)>>>>,
+            <<Ref("EM", <<>>), <<EnumDecl("EM", <<"num", "str">>)>>>>, <<Ref("EE", <<>>), <<EnumDecl("EE", <<>>)>>>>,
+            <<IdxT(Ref("DX", <<>>), LitT("str", "a")),
+              <<Interface("BX", <<>>, <<Prop("a", "ident", FALSE, Str)>>), Interface("DX", <<"BX">>, <<Prop("j", "ident", FALSE, Num)>>)>>>>,
+            <<IdxT(Ref("IX", <<>>), LitT("str", "x")),
+              <<Alias("IX", InterT(<<TypeLit(<<Prop("x", "ident", FALSE, Boo)>>), TypeLit(<<Prop("y", "ident", FALSE, Num)>>)>>))>>>>,
+            <<IdxT(IdxT(TypeLit(<<Prop("n", "ident", FALSE, TypeLit(<<Prop("m", "ident", FALSE, Str)>>))>>), LitT("str", "n")), LitT("str", "m")), <<>>>>,
+            <<IdxT(ParenT(Ref("BX", <<>>)), LitT("str", "a")), <<Interface("BX", <<>>, <<Prop("a", "ident", FALSE, Str)>>)>>>>,
+            <<IdxT(Ref("Partial", <<Ref("BX", <<>>)>>), LitT("str", "a")), <<Interface("BX", <<>>, <<Prop("a", "ident", FALSE, Str)>>)>>>>}
+Base == {<<a, <<>>>> : a \in Atoms} \cup MethodIdx \cup NullFirst \cup Outside
         \cup {<<Ref("IObj", <<>>), <<Interface("IObj", <<>>, <<Prop("foo", "ident", FALSE, Str)>>)>>>>,
               <<Ref("IFn", <<>>), <<Interface("IFn", <<>>, <<CallSig(Str)>>)>>>>,
               <<Ref("IEmpty", <<>>), <<Interface("IEmpty", <<>>, <<>>)>>>>}
